@@ -50,6 +50,8 @@ ALLOWED = {
     "merge": FLUSH | ROLL | LOAD | {("T", "P")},
     "get": FLUSH | ROLL | LOAD | {("S", "D")},
     "flush": FLUSH | ROLL,
+    "query": FLUSH | ROLL | LOAD,
+    "refresh": FLUSH | ROLL,
     "commit": FLUSH | ROLL | {("D", "X")},
     "rollback": ROLL,
     "nbegin": FLUSH | ROLL,
@@ -163,4 +165,97 @@ def check_case(eoc, ops, recs):
             if cur[i] != "S":
                 return dict(i=j, check="D", sig="session.deleted-has-" + cur[i], obj=i, detail="instance %d in session.deleted is %s" % (i, cur[i]))
         prev, prev_objs = cur, objs
+    return None
+
+
+# =============================================================================== C34
+def _ret(res):
+    """returned instance index of get/merge ('ok:3' / 'ok:N'), list for query"""
+    body = res.split(":", 1)[1]
+    if body.startswith("["):
+        inner = body[1:-1]
+        return [int(x) for x in inner.split(".")] if inner else []
+    return None if body == "N" else int(body)
+
+
+def check_case_c34(eoc, ops, recs):
+    """Direct oracle for C34 (identity map): first failure or None.
+
+    I1 no two persistent instances of the session share an identity key
+    I2 identity_map[k] is a persistent instance with key k; every persistent instance is
+       identity_map[its key]
+    I3 Session.get(k): an instance that was present (persistent, in the map) and not
+       expired is returned as is without emitting SQL; whatever is returned is the identity
+       map's persistent instance for k; None only when no row with that key is visible
+    I4 a query returns, for every row, exactly the identity map's instance for that row
+       (one per row, in order)
+    I5 merge returns the identity map's instance for the key (or a new pending one)
+    I6 refresh leaves the instance persistent and not expired
+    """
+    prev = None
+    for j, (op, r) in enumerate(zip(ops, recs)):
+        if r is None:
+            return None
+        kind = op[0]
+        failed = r["res"].startswith("err:")
+        objs = r["objs"]
+        cur = [state_letter(o) for o in objs]
+        imap = dict(r["imap"])
+        seen = {}
+        for i, o in enumerate(objs):
+            if cur[i] == "S":
+                if o["key"] in seen:
+                    return dict(i=j, check="I1", sig="two-persistent-instances-one-key", obj=i,
+                                detail="instances %d and %d are both persistent with identity key %s" % (seen[o["key"]], i, o["key"]))
+                seen[o["key"]] = i
+        for k, i in r["imap"]:
+            if i < 0 or i >= len(objs):
+                return dict(i=j, check="I2", sig="imap-unknown-instance", detail="identity map key %s -> unknown instance" % k)
+            if cur[i] != "S" or objs[i]["key"] != k:
+                return dict(i=j, check="I2", sig="imap-entry-%s%s" % (cur[i], "" if objs[i]["key"] == k else "-key-mismatch"), obj=i,
+                            detail="identity_map[%s] is instance %d which is %s with key %s" % (k, i, cur[i], objs[i]["key"]))
+        for i, o in enumerate(objs):
+            if cur[i] == "S" and imap.get(o["key"]) != i:
+                return dict(i=j, check="I2", sig="persistent-not-in-imap", obj=i,
+                            detail="instance %d is persistent with key %s but identity_map[%s] is %s" % (i, o["key"], o["key"], imap.get(o["key"])))
+        if not failed and kind == "get":
+            k = op[1]
+            ret = _ret(r["res"])
+            if prev is not None:
+                pcur = [state_letter(o) for o in prev["objs"]]
+                pres = [i for (kk, i) in prev["imap"] if kk == k and 0 <= i < len(pcur) and pcur[i] == "S" and not prev["objs"][i]["expired"]]
+                if pres:
+                    if ret != pres[0]:
+                        return dict(i=j, check="I3", sig="get-present-returned-other", detail="get(%s): instance %d was present and unexpired, got %s" % (k, pres[0], ret))
+                    if r["q"] > 0:
+                        return dict(i=j, check="I3", sig="get-present-emitted-sql", detail="get(%s): instance %d was present and unexpired but %d statement(s) were emitted" % (k, pres[0], r["q"]))
+            if ret is not None:
+                if cur[ret] != "S" or objs[ret]["key"] != k or imap.get(k) != ret:
+                    return dict(i=j, check="I3", sig="get-returned-%s" % cur[ret], obj=ret,
+                                detail="get(%s) returned instance %d: state %s key %s, identity_map[%s]=%s" % (k, ret, cur[ret], objs[ret]["key"], k, imap.get(k)))
+            elif k in r["db"]:
+                return dict(i=j, check="I3", sig="get-none-but-row-visible", detail="get(%s) returned None but the row is visible in the transaction" % k)
+        if not failed and kind == "query":
+            ret = _ret(r["res"])
+            keys = [objs[i]["key"] for i in ret]
+            if keys != r["db"]:
+                return dict(i=j, check="I4", sig="query-rows-vs-instances", detail="query returned instances with keys %s, rows visible %s" % (keys, r["db"]))
+            for i in ret:
+                if cur[i] != "S" or imap.get(objs[i]["key"]) != i:
+                    return dict(i=j, check="I4", sig="query-returned-%s" % cur[i], obj=i,
+                                detail="query returned instance %d (%s, key %s) but identity_map has %s" % (i, cur[i], objs[i]["key"], imap.get(objs[i]["key"])))
+        if not failed and kind == "merge":
+            ret = _ret(r["res"])
+            if objs[ret]["key"] is not None:
+                if imap.get(objs[ret]["key"]) != ret or cur[ret] != "S":
+                    return dict(i=j, check="I5", sig="merge-returned-%s" % cur[ret], obj=ret,
+                                detail="merge returned instance %d (%s, key %s), identity_map has %s" % (ret, cur[ret], objs[ret]["key"], imap.get(objs[ret]["key"])))
+            elif cur[ret] != "P":
+                return dict(i=j, check="I5", sig="merge-returned-keyless-%s" % cur[ret], obj=ret, detail="merge returned a keyless instance in state %s" % cur[ret])
+        if not failed and kind == "refresh":
+            i = op[1]
+            if cur[i] != "S" or objs[i]["expired"]:
+                return dict(i=j, check="I6", sig="refresh-left-%s%s" % (cur[i], "-expired" if objs[i]["expired"] else ""), obj=i,
+                            detail="after refresh instance %d is %s expired=%s" % (i, cur[i], objs[i]["expired"]))
+        prev = r
     return None
